@@ -52,6 +52,9 @@ CLAIMED = {
  "C15": ("6/C15", "deterministic simulation with fault sequences: Write/WriteByte/WriteString/Flush/Close sequences with oversize writes, send errors, closed sockets and abandoned messages against a byte-buffer reference model",
          "Seeded call sequences on the single and multi destination UDP transports with chunk sizes around the 65000 byte limit and faults at seeded positions (refused write, failing send, socket closed by the environment, writer abandoning a message after an error); each Flush must produce exactly one datagram with exactly the bytes accepted since the previous Flush and leave the buffer empty whether or not the send failed, refused writes send nothing, the next message arrives complete and alone, multi transport fans out when no destination fails, Close is idempotent, use after Close errors. fault_enumeration-style exploration of a sequential API; no interleavings are involved (the transport is not used concurrently).",
          "The socket is a stub (errors are 'this send returns an error'). Known finding D9 (stale prefix after an abandoned message) is recognised by its signature and reported as KNOWN-FINDING."),
+ "C17": ("6/C17", "deterministic simulation: record histories through a scope into the real Prometheus reporter and a private registry, Gather compared with a reference ledger; separate conflict profile with returning and panicking error callbacks",
+         "Concurrent tasks record on counters, gauges, timers (summary and histogram flavour) and histograms with strictly increasing finite bounds (samples on the bounds) while report passes run; after the final pass Gather must show the ledger sum per counter, the last update per gauge, cumulative bucket counts equal to the number of samples <= each bound (durations in seconds) and the sample total, the number of recorded values per timer, one family per name with one series per tag-value set. Conflict profile: first uses reusing a name across kinds or with other tag keys, with callbacks given via Options and via Configuration.OnError that return, log or panic; whenever the callback returns the caller must hold a usable metric, and no panic may be a runtime error (nil dereference) or come from anywhere but the configured callback. Exploration; value agreement is input-dominated, the simulator adds concurrent first use, record||report and the callback/panic paths.",
+         "As C01; prometheus client_golang runs real and un-instrumented; every run uses a private registry and, for the Configuration path, its own handler path on the process-wide mux."),
 }
 
 NOT_APPLICABLE = {
